@@ -6,7 +6,7 @@ import (
 	"verifh/hx"
 )
 
-var meths = []string{"MEcho", "MFail", "MBoom", "MNever", "MNote", "MNoMethod", "MNoGroup", "MBadPayload", "MUnenc", "MEncPanic", "MEchoLater", "MUnencLater"}
+var meths = []string{"MEcho", "MFail", "MBoom", "MNever", "MNote", "MNoMethod", "MNoGroup", "MBadPayload", "MUnenc", "MEncPanic", "MEchoLater", "MUnencLater", "MEncPanicLater"}
 
 func rt(ty int64, m any) hx.T { return hx.C("RT", ty, m) }
 
